@@ -127,7 +127,7 @@ func renderErr(m *regexp2.Match, err error) string {
 // ---------------------------------------------------------------------------------------------
 // generators
 
-var fullAlphabet = []rune{'a', 'b', 'c', 'A', 'B', 'x', 'y', '1', '2', ' ', '-', '_', '\n', '[', '{', '@', '`', 'é', 'É', 'α', 'Α', 'я', 'k', 's', 0x212A, 0x301, 0xFFFD, 0x1F600}
+var fullAlphabet = []rune{'a', 'b', 'c', 'A', 'B', 'x', 'y', '1', '2', ' ', '-', '_', '\n', '[', '{', '@', '`', 'é', 'É', 'α', 'Α', 'я', 'k', 's', 0x212A, 0x301, 0xFFFD, 0x1F600, 0x1F601}
 
 var allOptionBits = []regexp2.RegexOptions{regexp2.IgnoreCase, regexp2.Multiline, regexp2.ExplicitCapture, regexp2.Singleline,
 	regexp2.IgnorePatternWhitespace, regexp2.RightToLeft, regexp2.ECMAScript, regexp2.RE2, regexp2.Unicode}
@@ -315,7 +315,7 @@ func biasedAst(rng *rand.Rand, cfg gen.Config) *gen.Node {
 		}
 		return q
 	}
-	words := []string{"ab", "abc", "bca", "xy", "a1", "Ab", "éa", "ba", "aab", "-a"}
+	words := []string{"ab", "abc", "bca", "xy", "a1", "Ab", "éa", "ba", "aab", "-a", "bc", "abcd", "xbcy", "ca", "bcab"}
 	w := func() string { return words[rng.Intn(len(words))] }
 	cfg.MaxDepth = 1 + rng.Intn(2)
 	tail := gen.Random(rng, cfg)
@@ -325,6 +325,16 @@ func biasedAst(rng *rand.Rand, cfg gen.Config) *gen.Node {
 		head = lit(w())
 	case 1: // leading strings
 		head = &gen.Node{Kind: gen.KGroup, Subs: []*gen.Node{{Kind: gen.KAlt, Subs: []*gen.Node{lit(w()), lit(w()), lit(w())}}}}
+		if rng.Intn(2) == 0 {
+			// an earlier, shorter alternative that occurs strictly inside a later, longer one
+			inner := w()
+			outer := string("xyzb1"[rng.Intn(5)]) + inner + string("xyza2"[rng.Intn(5)])
+			alts := []*gen.Node{lit(inner), lit(outer)}
+			if rng.Intn(2) == 0 {
+				alts = append(alts, lit(w()))
+			}
+			head = &gen.Node{Kind: gen.KGroup, Subs: []*gen.Node{{Kind: gen.KAlt, Subs: alts}}}
+		}
 	case 2: // set then literal at fixed distance
 		head = &gen.Node{Kind: gen.KSeq, Subs: []*gen.Node{{Kind: gen.KClass, Class: &gen.Class{Items: []gen.ClassItem{{Lo: 'a', Hi: 'c'}}}}, {Kind: gen.KDot}, lit(w())}}
 	case 3: // literal after a leading loop
@@ -529,6 +539,41 @@ func rewriteAst(rng *rand.Rand, cfg gen.Config) *gen.Node {
 	words := []string{"ab", "abc", "abd", "a", "b", "ac", "bc", "ba", "aab", "c"}
 	alt := func() *gen.Node {
 		a := &gen.Node{Kind: gen.KAlt}
+		if rng.Intn(2) == 0 {
+			// branches that begin with the same one-character node or loop (what the prefix factoring of
+			// alternations looks for), with equal and with slightly different repeat counts, lazy or not
+			var head *gen.Node
+			switch rng.Intn(4) {
+			case 0:
+				head = &gen.Node{Kind: gen.KLit, Ch: 'a'}
+			case 1:
+				head = &gen.Node{Kind: gen.KShort, Short: "dw"[rng.Intn(2)]}
+			case 2:
+				head = &gen.Node{Kind: gen.KClass, Class: &gen.Class{Neg: true, Items: []gen.ClassItem{{Lo: 'c', Hi: 'c'}}}}
+			default:
+				head = &gen.Node{Kind: gen.KClass, Class: &gen.Class{Items: []gen.ClassItem{{Lo: 'a', Hi: 'b'}}}}
+			}
+			lo := 1 + rng.Intn(2)
+			counts := [][2]int{{lo, lo}, {lo, lo}, {lo, lo + 1 + rng.Intn(2)}, {lo, -1}, {lo + 1, lo + 1}, {1, 1}}
+			lazyAll := rng.Intn(5) == 0
+			for k := 2 + rng.Intn(2); k > 0; k-- {
+				c := counts[rng.Intn(len(counts))]
+				var h *gen.Node
+				if c[0] == 1 && c[1] == 1 && rng.Intn(2) == 0 {
+					cp := *head
+					h = &cp
+				} else {
+					cp := *head
+					h = &gen.Node{Kind: gen.KQuant, Lo: c[0], Hi: c[1], Lazy: lazyAll || rng.Intn(8) == 0, Subs: []*gen.Node{&cp}}
+				}
+				rest := lit(words[rng.Intn(len(words))])
+				if rng.Intn(4) == 0 {
+					rest = &gen.Node{Kind: gen.KCap, Subs: []*gen.Node{rest}}
+				}
+				a.Subs = append(a.Subs, &gen.Node{Kind: gen.KSeq, Subs: []*gen.Node{h, rest}})
+			}
+			return &gen.Node{Kind: gen.KGroup, Subs: []*gen.Node{a}}
+		}
 		for k := 2 + rng.Intn(3); k > 0; k-- {
 			if rng.Intn(10) == 0 {
 				a.Subs = append(a.Subs, &gen.Node{Kind: gen.KEmpty})
@@ -542,13 +587,40 @@ func rewriteAst(rng *rand.Rand, cfg gen.Config) *gen.Node {
 	capFirst := rng.Intn(3) == 0
 	for k := 2 + rng.Intn(3); k > 0; k-- {
 		var x *gen.Node
-		switch rng.Intn(9) {
+		switch rng.Intn(11) {
 		case 0, 1, 2, 3:
 			x = loop()
 		case 4:
 			x = single()
-		case 5:
+		case 5, 9:
 			x = alt()
+		case 10:
+			// a counted group that has to iterate, its body a loop followed by a word: what may follow the last
+			// node of the body is the first node of the next iteration (bare, atomic, or in a lookaround)
+			body := &gen.Node{Kind: gen.KSeq, Subs: []*gen.Node{loop(), lit(words[rng.Intn(len(words))])}}
+			if rng.Intn(2) == 0 {
+				// the loop's character is the last one of the word and not its first: disjoint from what follows it
+				// when read left to right, overlapping when read right to left
+				w := []string{"ba", "bca", "ca", "cba", "1a", "ab", "acb", "cab"}[rng.Intn(8)]
+				last := []rune(w)[len([]rune(w))-1]
+				body = &gen.Node{Kind: gen.KSeq, Subs: []*gen.Node{{Kind: gen.KQuant, Lo: rng.Intn(2), Hi: -1, Lazy: rng.Intn(5) == 0, Subs: []*gen.Node{{Kind: gen.KLit, Ch: last}}}, lit(w)}}
+			}
+			if rng.Intn(3) == 0 {
+				body.Subs = append(body.Subs, &gen.Node{Kind: gen.KAnchor, Anchor: []string{"$", "z", "Z", "b"}[rng.Intn(4)]})
+			}
+			if rng.Intn(4) == 0 {
+				body.Subs[0], body.Subs[1] = body.Subs[1], body.Subs[0]
+			}
+			lo := 1 + rng.Intn(2)
+			x = &gen.Node{Kind: gen.KQuant, Lo: lo, Hi: []int{lo, lo + 1, -1}[rng.Intn(3)], Lazy: rng.Intn(6) == 0, Subs: []*gen.Node{{Kind: gen.KGroup, Subs: []*gen.Node{body}}}}
+			switch rng.Intn(5) {
+			case 0:
+				x = &gen.Node{Kind: gen.KAtomic, Subs: []*gen.Node{x}}
+			case 1:
+				x = &gen.Node{Kind: gen.KLook, Behind: true, Neg: rng.Intn(4) == 0, Subs: []*gen.Node{x}}
+			case 2:
+				x = &gen.Node{Kind: gen.KLook, Behind: false, Neg: rng.Intn(4) == 0, Subs: []*gen.Node{x}}
+			}
 		case 6:
 			x = &gen.Node{Kind: gen.KAtomic, Subs: []*gen.Node{[]*gen.Node{alt(), loop(), {Kind: gen.KSeq, Subs: []*gen.Node{loop(), loop()}}}[rng.Intn(3)]}}
 		case 7:
@@ -600,6 +672,12 @@ var engCorpus = func() []engCase {
 	rtl, re2, ci, sl, n := int32(regexp2.RightToLeft), int32(regexp2.RE2), int32(regexp2.IgnoreCase), int32(regexp2.Singleline), int32(regexp2.ExplicitCapture)
 	cs := []engCase{
 		{Pattern: `(?:ab*){2}`, Text: R("abab")},
+		{Pattern: `a{64}c`, Opts: rtl, Text: R("zz" + strings.Repeat("a", 64) + "cyy"), Start: 69},
+		{Pattern: `(?<=(?:a*ba){2})c`, Text: R("baabac")},
+		{Pattern: `(?>(?:a*ba){2})`, Opts: rtl, Text: R("baaba"), Start: 5},
+		{Pattern: `\w+(?:\s+xbcy\s*|[bx]|\s+b\s+)[a-c]{1}\s*a`, CodeGen: true, Text: R("Y\U0001F600_é1\nb \ncab")},
+		{Pattern: `(?:y||[^\x{1F600}])b`, Text: R("\U0001F601b")},
+		{Pattern: `(?:|\D)[^\x{1F600}]aab$`, Text: R("\U0001FBF0aab")},
 		{Pattern: `\G{2}abc`, Text: R("xxabc")},
 		{Pattern: `(?:xx|.a)`, Text: R("c\nxx1 c")},
 		{Pattern: `(?:bc|.bc)`, Text: R("bcx")},
